@@ -32,12 +32,12 @@ CORPUS = os.path.join(vlib.VERIF, "corpus", PROP)
 def correspondence(ctx):
     thorough = ctx.tier == "thorough" or ctx.extra.get("drift")
     ctx.rule = ("one case = a generated synthetic graph of real TestNode objects (1-3 vms, setup chains with fan-out, multi-object "
-                "leaves, removable states), 1-4 workers (lxc / remote clusters / serial), pool_scope subset, retry settings, "
+                "leaves, removable states; 30% with lazy expansion of flat leaves) or a really parsed graph of the shipped suite, 1-4 workers (lxc / remote clusters / serial), pool_scope subset, retry settings, "
                 "initial pool population and per-worker schedule of (duration, status|never reported); the real "
                 "traverse_object_trees runs under virtual time, its event stream is replayed block by block through the Lean "
                 "model and judged by the verified monitors " + ",".join(MONITORS) + "; non-trivial = more than two executions")
     n = 3000 if thorough else 240
-    trav_common.family_run(ctx, MONITORS, n, corpus=CORPUS)
+    trav_common.family_run(ctx, MONITORS, n, corpus=CORPUS, n_parsed=40 if thorough else 5)
 
 
 def search(ctx, reason):
